@@ -94,6 +94,10 @@ type Engine struct {
 	syncMaps  map[*Cell]*MapObj
 	hashers   map[*Cell]*hashTranscript
 	opaquePubKeys bool
+	modelRecover   bool
+	recoverStack   []*recExtent
+	runningRecover *recExtent // set while the recovering deferred closure of that extent runs
+	recoverDepth   int        // call depth of that closure's body (recover() works only there)
 	registered map[string][2]Value // p2p.RegisterHandler registrations: key -> (request factory, handler) as interface values
 	noops     map[string]bool
 	light     *Solver
@@ -426,8 +430,41 @@ func (e *Engine) inputModel(m map[string]uint64) map[string]uint64 {
 	return out
 }
 
+// recExtent: the dynamic extent of a function that deferred a closure calling recover() directly (only with case
+// parameter model_recover=1): panic conditions raised inside are accumulated instead of becoming verification conditions,
+// and recover() inside that deferred closure returns a non-nil value exactly under the accumulated condition. Approximation
+// (stated in DESIGN.md 8.13): what the function computes after the panic point is not undone - sound for functions whose
+// only visible effect is their result and error (decoders), which is what it is switched on for.
+type recExtent struct {
+	frame *Frame
+	acc   *Term
+}
+
 func (e *Engine) panicVC(label string, p token.Pos, cond *Term) {
+	if n := len(e.recoverStack); n > 0 && e.runningRecover == nil {
+		top := e.recoverStack[n-1]
+		top.acc = Or(top.acc, cond)
+		e.StubsUsed["recover(): panics inside a function with a directly recovering deferred closure become its error result"]++
+		return
+	}
 	e.vc("panic", label, p, cond)
+}
+
+// directlyRecovers reports whether fn's own body calls the builtin recover (Go: only then does recover stop a panic).
+func directlyRecovers(fn *ssa.Function) bool {
+	if fn == nil {
+		return false
+	}
+	for _, b := range fn.Blocks {
+		for _, in := range b.Instrs {
+			if c, ok := in.(*ssa.Call); ok {
+				if bi, ok := c.Call.Value.(*ssa.Builtin); ok && bi.Name() == "recover" {
+					return true
+				}
+			}
+		}
+	}
+	return false
 }
 
 // ---------- CFG analysis ----------
@@ -540,6 +577,7 @@ type deferred struct {
 	args []Value
 	call *ssa.CallCommon
 	bi   *ssa.Builtin
+	recovers bool // the deferred function calls recover() itself
 }
 
 type retAlt struct {
@@ -723,6 +761,9 @@ func (e *Engine) call(fn *ssa.Function, args []Value, g *Term, pos token.Pos) Va
 		fr.traceBlocks = true
 	}
 	fr.runRegion(nil)
+	if n := len(e.recoverStack); n > 0 && e.recoverStack[n-1].frame == fr {
+		e.recoverStack = e.recoverStack[:n-1]
+	}
 	// merge returns
 	var res Value
 	nres := fn.Signature.Results().Len()
@@ -856,6 +897,9 @@ func (e *Engine) callClosure(fn *ssa.Function, binds []Value, args []Value, g *T
 		e.FnCount[name] = n
 	}
 	fr.runRegion(nil)
+	if n := len(e.recoverStack); n > 0 && e.recoverStack[n-1].frame == fr {
+		e.recoverStack = e.recoverStack[:n-1]
+	}
 	var res Value
 	if fn.Signature.Results().Len() == 0 {
 		return nil
